@@ -179,7 +179,12 @@ type Tracer struct {
 
 // Eval returns the abstract value of v in state st (exported for rules that inspect the
 // final state of a path).
-func (in *Interp) Eval(v ssa.Value, st *State) AV { return in.eval(v, st) }
+func (in *Interp) Eval(v ssa.Value, st *State) AV {
+	if v == nil || st == nil {
+		return AV{}
+	}
+	return in.eval(v, st)
+}
 
 type tcont func(st *State, pr *TracedPath)
 
